@@ -161,6 +161,7 @@ pub struct Seg {
 
 pub struct Model<'a> {
     pub w: &'a World,
+    full: &'a [Call],
     calls: Vec<&'a Call>,
     cur: usize,
     canon_ok: BTreeMap<String, Vec<String>>,
@@ -214,6 +215,7 @@ impl<'a> Model<'a> {
         });
         Model {
             w,
+            full: history,
             calls: history.iter().filter(|c| c.op != Op::Canon).collect(),
             cur: 0,
             canon_ok,
@@ -332,12 +334,27 @@ impl<'a> Model<'a> {
         (spelled.to_string(), None)
     }
 
+    /// Ground truth: the absolute path `path` resolves to in the simulated tree *at the time
+    /// the front end decides about this include* (the tree changes under `remove`/`put`
+    /// faults). The decision time is the first `canonicalize` of the target after the last
+    /// call the model has consumed, if there is one before the next consumed call; otherwise
+    /// the call right after the last consumed one.
     fn ground_truth(&self, path: &str) -> Option<String> {
         if self.static_world {
-            simfs::walk(&self.w.nodes, &self.w.cwd, Path::new(path)).ok()
-        } else {
-            None
+            return simfs::walk(&self.w.nodes, &self.w.cwd, Path::new(path)).ok();
         }
+        let last_seq: Option<usize> = if self.cur == 0 { None } else { Some(self.calls[self.cur - 1].seq) };
+        let next_seq: usize = self.peek().map(|c| c.seq).unwrap_or(usize::MAX);
+        let from = last_seq.map(|s| s + 1).unwrap_or(0);
+        let decision = self
+            .full
+            .iter()
+            .filter(|c| c.seq >= from && c.seq < next_seq)
+            .find(|c| c.op == Op::Canon && c.path == path)
+            .map(|c| c.seq)
+            .unwrap_or(from);
+        let nodes = simfs::nodes_at(self.w, decision);
+        simfs::walk(&nodes, &self.w.cwd, Path::new(path)).ok()
     }
 
     /// Build the model of the whole run. Returns false when nothing can be judged because the
